@@ -35,6 +35,8 @@ def KW(prob, solver):
     return dict(SOLVERS[solver], **OVERRIDE.get((prob, solver), {}))
 
 
+VARIANTS = {"pi-reset": dict(gamma=0.95, epsilon=1e-3, max_eval_iter=6, reset_values_for_each_policy_eval=True, convergence_test="max_diff")}
+
 FIELDS = ("values", "gain", "value_history", "history_index", "period")
 
 
@@ -128,6 +130,9 @@ def run(ctx):
         combos += [("tab", "pi"), ("tab", "pvi"), ("tab", "savi"), ("demoor", "pi"), ("demoor", "savi")]
     refjobs = [{"prob": p, "solver": s, "kw": KW(p, s)} for p, s in combos]
     refjobs.append({"prob": "forest", "solver": "pvi", "kw": dict(SOLVERS["pvi"], clear_value_history_on_convergence=True), "tag": "pvi-clear"})
+    # policy iteration restarting every evaluation from the problem's initial values (state that is
+    # NOT in the checkpoint and must be rebuilt identically on restore)
+    refjobs.append({"prob": "forest", "solver": "pi", "kw": VARIANTS["pi-reset"], "tag": "pi-reset"})
     refs = {}
     for j, r in zip(refjobs, pool.map(run_plain, refjobs)):
         if r["error"]:
@@ -139,8 +144,8 @@ def run(ctx):
     jobs = []
 
     def add(prob, tag, parts, f, m, asy, route):
-        s = "pvi" if tag == "pvi-clear" else tag
-        kw = dict(SOLVERS[s], clear_value_history_on_convergence=True) if tag == "pvi-clear" else KW(prob, s)
+        s = "pvi" if tag == "pvi-clear" else "pi" if tag == "pi-reset" else tag
+        kw = dict(SOLVERS[s], clear_value_history_on_convergence=True) if tag == "pvi-clear" else VARIANTS[tag] if tag in VARIANTS else KW(prob, s)
         jobs.append({"prob": prob, "solver": s, "tag": tag, "kw": kw, "parts": list(parts), "f": f, "m": m, "async": asy, "route": route,
                      "dir": os.path.join(scratch, "c09_%d" % len(jobs))})
 
@@ -197,7 +202,7 @@ def run(ctx):
     ctx.note("chains_bit_identical_to_uninterrupted", bits)
     # 3. enabling checkpointing never changes results
     cj = []
-    for (prob, tag) in [k for k in Ns if k[0] == "forest" and k[1] != "pvi-clear"]:
+    for (prob, tag) in [k for k in Ns if k[0] == "forest" and k[1] in SOLVERS]:
         for f, m, asy in ([(1, 1, True), (2, 2, False), (2, 1, True), (3, 2, False)] if q else itertools.product((1, 2, 3), (1, 2), (False, True))):
             cj.append({"prob": prob, "solver": tag, "kw": SOLVERS[tag], "f": f, "m": m, "async": asy, "dir": os.path.join(scratch, "c09p_%d" % len(cj))})
     for j, r in zip(cj, pool.map(run_plain, cj)):
